@@ -452,6 +452,7 @@ func (s *Species) reproduce(ctx context.Context, generation int, pop *Population
 				if err != nil {
 					return nil, err
 				}
+				verifMated(mom, dad, newGenome, "multipoint")
 			} else if rand.Float64() < opts.MateMultipointAvgProb/(opts.MateMultipointAvgProb+opts.MateSinglepointProb) {
 				neat.DebugLog("SPECIES: ------> mateMultipointAvg")
 
@@ -460,6 +461,7 @@ func (s *Species) reproduce(ctx context.Context, generation int, pop *Population
 				if err != nil {
 					return nil, err
 				}
+				verifMated(mom, dad, newGenome, "multipoint_avg")
 			} else {
 				neat.DebugLog("SPECIES: ------> mateSinglePoint")
 
@@ -467,6 +469,7 @@ func (s *Species) reproduce(ctx context.Context, generation int, pop *Population
 				if err != nil {
 					return nil, err
 				}
+				verifMated(mom, dad, newGenome, "singlepoint")
 			}
 
 			mateBaby = true
